@@ -299,12 +299,14 @@ class Ev:
                 raise _ModelRaise("TypeError") from err
         if isinstance(n, ast.IfExp):
             return self.ev(n.body) if self.truth(self.ev(n.test)) else self.ev(n.orelse)
-        if isinstance(n, ast.Tuple):
-            return tuple(self.ev(e) for e in n.elts)
-        if isinstance(n, ast.List):
-            return [self.ev(e) for e in n.elts]
-        if isinstance(n, ast.Set):
-            return {self.ev(e) for e in n.elts}
+        if isinstance(n, (ast.Tuple, ast.List, ast.Set)):
+            vals: list = []
+            for e in n.elts:
+                if isinstance(e, ast.Starred):
+                    vals.extend(self.iterate(self.ev(e.value)))  # [*a, *b]
+                else:
+                    vals.append(self.ev(e))
+            return tuple(vals) if isinstance(n, ast.Tuple) else vals if isinstance(n, ast.List) else set(vals)
         if isinstance(n, (ast.GeneratorExp, ast.ListComp, ast.SetComp)):
             return self.comp(n)
         if isinstance(n, ast.Lambda):
